@@ -54,7 +54,16 @@ def _pool():
 
 def _pick(r):
     pool, special = _pool()
-    return (r.choice(special) if r.random() < .3 else r.choice(pool)).copy()
+    m = (r.choice(special) if r.random() < .3 else r.choice(pool)).copy()
+    if r.random() < .12:      # radical at a random sp3 carbon of any molecule (exercises the ^1: block with non-trivial indices)
+        cs = [n for n, a in m.atoms() if a.atomic_symbol == 'C' and a.hybridization == 1 and (a.implicit_hydrogens or 0) >= 1
+              and not a.is_radical and not a.charge]
+        if cs:
+            m.kekule()        # edits are only defined on Kekule forms (docstrings of the mutators): edit there, then re-aromatise
+            with m:
+                m.atom(r.choice(cs)).is_radical = True
+            m.thiele()
+    return m
 
 
 def _renumber_seq(ms, r, start=1):
@@ -149,8 +158,14 @@ def _order_and_roundtrip(i, r, out):
     if not isinstance(back, RC):
         out.v(f'roundtrip:{s0}', f'smiles(str(r)) is not a reaction: {type(back).__name__}', witness=_witness(rx), native=str(back))
         return
-    for m in back.molecules():
-        D.norm(m)
+    try:
+        for m in back.molecules():
+            D.norm(m)
+    except Exception as e:   # the original molecules were normalised without error: the re-read ones are not the same molecules
+        out.case(1, key=('roundtrip', s0))
+        out.v(f'roundtrip:{s0}', f'molecules re-read from str(r) cannot be normalised ({type(e).__name__}: {e}): {s0} -> {back}', witness=_witness(rx),
+              native={'str_back': str(back), 'error': repr(e)})
+        return
     back.flush_cache(keep_molecule_cache=True)
     out.case(1, key=('roundtrip', s0), sample={'contract': 'round trip', 'reaction': s0})
     exp, got = _role_strings(rx), _role_strings(back)
